@@ -406,7 +406,8 @@ func c19(x *mon.Ctx) {
 	kinds := []string{"absent", "matching", "mismatching", "malformed"}
 	for fi, f := range fields {
 		for _, ck := range kinds {
-			for _, fk := range kinds {
+			for _, fk := range append(append([]string{}, kinds...), "empty") { // "-name=": given, with no value — as good as not given
+
 				args := append([]string{}, base...)
 				if ck != "absent" {
 					cfg := &ccpb.Config{Policy: &ccpb.Policy{HeaderPolicy: &ccpb.HeaderPolicy{}, TdQuoteBodyPolicy: &ccpb.TDQuoteBodyPolicy{}}}
@@ -428,9 +429,11 @@ func c19(x *mon.Ctx) {
 					args = append(args, "-"+f.name+"="+f.bad)
 				case "malformed":
 					args = append(args, "-"+f.name+"="+f.malformedFlag)
+				case "empty":
+					args = append(args, "-"+f.name+"=")
 				}
 				eff := ck
-				if fk != "absent" {
+				if fk != "absent" && fk != "empty" {
 					eff = fk
 				}
 				want := 0
@@ -444,6 +447,34 @@ func c19(x *mon.Ctx) {
 				}
 				add("policy-field/"+f.name, "config="+ck+",flag="+fk, "", want, -1, want == 0, args...)
 			}
+		}
+	}
+	// the number of RTMR expectations is four: lists of another length (from the flag or from the config file, binary or text)
+	// are malformed — exit 1 — at every verbosity
+	for _, cnt := range []int{1, 2, 3, 5, 8} {
+		var parts []string
+		var ents [][]byte
+		for i := 0; i < cnt; i++ {
+			parts = append(parts, hx(q.Rtmrs[i%4]))
+			ents = append(ents, q.Rtmrs[i%4])
+		}
+		empties := strings.Repeat(",", cnt-1)
+		for v := 0; v <= 2; v++ {
+			vb := fmt.Sprintf("-verbosity=%d", v)
+			add("rtmrs-count", fmt.Sprintf("flag/%d-values/verbosity=%d", cnt, v), "", 1, -1, false, append(append([]string{}, base...), "-rtmrs="+strings.Join(parts, ","), vb)...)
+			if cnt > 1 {
+				add("rtmrs-count", fmt.Sprintf("flag/%d-empty-values/verbosity=%d", cnt, v), "", 1, -1, false, append(append([]string{}, base...), "-rtmrs="+empties, vb)...)
+			}
+			cfg := &ccpb.Config{Policy: &ccpb.Policy{HeaderPolicy: &ccpb.HeaderPolicy{}, TdQuoteBodyPolicy: &ccpb.TDQuoteBodyPolicy{Rtmrs: ents}}}
+			var cf string
+			if (cnt+v)%2 == 0 {
+				b, _ := proto.Marshal(cfg)
+				cf = write(fmt.Sprintf("cfg-rtmrs-count-%d-%d.bin", cnt, v), b)
+			} else {
+				b, _ := prototext.Marshal(cfg)
+				cf = write(fmt.Sprintf("cfg-rtmrs-count-%d-%d.textproto", cnt, v), b)
+			}
+			add("rtmrs-count", fmt.Sprintf("config/%d-values/verbosity=%d", cnt, v), "", 1, -1, false, append(append([]string{}, base...), "-config", cf, vb)...)
 		}
 	}
 	// random combinations over all 13 fields at once: every field independently picks its config kind and flag kind.
@@ -640,6 +671,22 @@ func c19(x *mon.Ctx) {
 			split = append(split, &c)
 		}
 		runs = append(runs, split...)
+	}
+	// ---- how much the tool logs does not change what it decides: runs with malformed or mismatching policies (and every fifth
+	//      other run) again with -verbosity=1 / -verbosity=2
+	{
+		var verbose []*toolRun
+		for i, t := range runs {
+			pol := strings.HasPrefix(t.Class, "policy-field/") && (strings.Contains(t.Param, "malformed") || strings.Contains(t.Param, "mismatching"))
+			if !(pol && i%2 == 0) && i%5 != 0 || t.Class == "time-zone" || t.Class == "flag-value-as-separate-argument" || !(t.Net == "" || t.Net == "honest") {
+				continue
+			}
+			c := *t
+			v := 1 + i%2
+			c.Class, c.Param, c.Args = "with-verbosity", fmt.Sprintf("%d/%s/%s", v, t.Class, t.Param), append(append([]string{}, t.Args...), fmt.Sprintf("-verbosity=%d", v))
+			verbose = append(verbose, &c)
+		}
+		runs = append(runs, verbose...)
 	}
 	// ---- run
 	var rmu sync.Mutex
